@@ -77,7 +77,9 @@ func rtGen(r *rand.Rand, n int, tier string, emit func(Case)) {
 		if sz <= 12 {
 			searches = 3*sz + 6 // every stop position for small trees
 		}
-		emit(Case{"n": sz, "layout": r.Intn(7), "seed": r.Int63(), "searches": searches, "coord": coord})
+		idbase := []int{1, 0, 0, -5, 100000}[r.Intn(5)]
+		off := []int{0, 0, -coord / 2, -coord, 1000}[r.Intn(5)]
+		emit(Case{"n": sz, "layout": r.Intn(7), "seed": r.Int63(), "searches": searches, "coord": coord, "idbase": idbase, "off": off})
 	}
 }
 
@@ -89,25 +91,38 @@ func rtExec(c Case) Event {
 	r := rand.New(rand.NewSource(int64(c.num("seed"))))
 	n, coord := c.num("n"), c.num("coord")
 	boxes := rtGenBoxes(r, n, c.num("layout"), coord)
+	// The library sees record ids idbase, idbase+1, ... (0, negative and large ids included) and every box and query
+	// translated by (off, off) (so that the origin and negative ordinates occur); the specification sees ids 1..n and
+	// the untranslated integers: both maps are bijections applied uniformly to everything reported.
+	idbase, off := 1, 0.0
+	if _, ok := c["idbase"]; ok {
+		idbase, off = c.num("idbase"), float64(c.num("off"))
+	}
+	shift := func(b rtree.Box) rtree.Box {
+		return rtree.Box{MinX: b.MinX + off, MinY: b.MinY + off, MaxX: b.MaxX + off, MaxY: b.MaxY + off}
+	}
+	unshift := func(b rtree.Box) rtree.Box {
+		return rtree.Box{MinX: b.MinX - off, MinY: b.MinY - off, MaxX: b.MaxX - off, MaxY: b.MaxY - off}
+	}
 	items := make([]rtree.BulkItem, n)
 	bl := [][]int{}
 	for i, b := range boxes {
-		items[i] = rtree.BulkItem{Box: b, RecordID: i + 1}
+		items[i] = rtree.BulkItem{Box: shift(b), RecordID: i + idbase}
 		bl = append(bl, rtBox(b))
 	}
 	tree := rtree.BulkLoad(items)
 	var evs []Event
 	load := Event{"e": "Load", "boxes": bl, "count": tree.Count(), "extent": []int{}}
 	if ext, ok := tree.Extent(); ok {
-		load["extent"] = rtBox(ext)
+		load["extent"] = rtBox(unshift(ext))
 	}
 	nodes := []Event{}
 	for _, vn := range tree.VerifDump() {
 		ents := []Event{}
 		for j, b := range vn.Boxes {
-			e := Event{"box": rtBox(b), "child": 0, "rec": 0}
+			e := Event{"box": rtBox(unshift(b)), "child": 0, "rec": 0}
 			if vn.Leaf {
-				e["rec"] = vn.Records[j]
+				e["rec"] = vn.Records[j] - idbase + 1
 			} else {
 				e["child"] = vn.Children[j]
 			}
@@ -155,7 +170,7 @@ func rtExec(c Case) Event {
 				ret = stopRet
 			}
 			pos++
-			evs = append(evs, Event{"e": "Cb", "id": id, "ret": ret})
+			evs = append(evs, Event{"e": "Cb", "id": id - idbase + 1, "ret": ret})
 			switch ret {
 			case "stop":
 				return rtree.Stop
@@ -168,9 +183,9 @@ func rtExec(c Case) Event {
 		}
 		var err error
 		if kind == "range" {
-			err = tree.RangeSearch(q, cb)
+			err = tree.RangeSearch(shift(q), cb)
 		} else {
-			err = tree.PrioritySearch(q, cb)
+			err = tree.PrioritySearch(shift(q), cb)
 		}
 		res := "nil"
 		switch {
@@ -182,7 +197,10 @@ func rtExec(c Case) Event {
 		evs = append(evs, Event{"e": "Ret", "res": res})
 		if s%3 == 0 {
 			nq := queryBox()
-			id, found := tree.Nearest(nq)
+			id, found := tree.Nearest(shift(nq))
+			if found {
+				id = id - idbase + 1
+			}
 			evs = append(evs, Event{"e": "Nearest", "q": rtBox(nq), "found": found, "id": id})
 		}
 	}
